@@ -44,6 +44,28 @@ Theorem C01_many_keys : forall (insts : list inst) l1 l2 p1 p2,
   /\ gfinal s = Some (match insts with [] => Skipped | _ => Completed end).
 Proof. exact gather_many_perm. Qed.
 
+(* ... and the same with the two termination tokens carrying ANY statuses other than FAILED (a gather whose lists are
+   all empty receives SKIPPED on the normal path): same outputs, the final status follows the statuses *)
+Theorem C01_many_keys_any_status : forall (insts : list inst) l1 l2 p1 p2 st1 st2,
+  Forall inst_ok insts -> NoDup (map ikey insts) ->
+  Permutation (l1 ++ l2) (all_arrivals insts) ->
+  p1 <> p2 -> (forall a, In a l2 -> port_of a <> p1) ->
+  st1 <> Failed -> st2 <> Failed ->
+  let s := gather_run 1 (l1 ++ OnTerm p1 st1 :: l2 ++ [OnTerm p2 st2]) in
+  Permutation (gout (gd s)) (expected_out insts)
+  /\ gfinal s = Some (get_status (reduce_statuses [reduce_statuses [Skipped; st1]; st2])
+                                  (match insts with [] => true | _ => false end)).
+Proof. exact gather_many_perm_st. Qed.
+(* what a GatherStep of any depth emits does not depend on the statuses of its termination tokens, as long as none
+   is FAILED -- for ANY token arrivals (no hypothesis on them beyond port order) *)
+Theorem C01_status_independent : forall d l1 l2 p1 p2 st1 st2 st1' st2',
+  (forall a, In a (l1 ++ l2) -> is_term a = false) ->
+  p1 <> p2 -> (forall a, In a l2 -> port_of a <> p1) ->
+  st1 <> Failed -> st2 <> Failed -> st1' <> Failed -> st2' <> Failed ->
+  gout (gd (gather_run d (l1 ++ OnTerm p1 st1 :: l2 ++ [OnTerm p2 st2]))) =
+  gout (gd (gather_run d (l1 ++ OnTerm p1 st1' :: l2 ++ [OnTerm p2 st2']))).
+Proof. exact gout_status_independent. Qed.
+
 (* nested scatter (two levels), gathered by two chained depth-1 gathers: the inner gather sees all t.i.j and
    the sizes t.i in any order; the outer gather sees the inner gather's outputs in any order and the size t *)
 Theorem C01_nested_two_levels : forall (t : tag) (wss : list (list tok)) (f : tok -> tok) l1 l2 p1 p2 m1 m2 q1 q2,
@@ -123,6 +145,22 @@ Theorem C01_scatter_is_expect : forall (t : tag) i xs,
 Proof. exact scatter_is_expect. Qed.
 
 (* ---- non-vacuity / headline instances ---- *)
+(* C01_nested_two_levels on [[a;b];[]]: inner gather fed in reverse order, outer gather fed its outputs reversed *)
+Example C01_nested_two_levels_example :
+  let f := fun x : tok => x in
+  let wss := [[Tok "0" "a"; Tok "0" "b"]; []] in
+  let insts := inner_insts [0%N] 0 (nested_ess [0%N] 0 f wss) in
+  let s_in := gather_run 1 (rev (all_arrivals insts) ++ OnTerm SizeP Completed :: [] ++ [OnTerm ElemP Completed]) in
+  let m1 := OnSize "0" 2 :: map OnElem (rev (gout (gd s_in))) in
+  let s_out := gather_run 1 (m1 ++ OnTerm ElemP Completed :: [] ++ [OnTerm SizeP Completed]) in
+  Permutation (rev (all_arrivals insts) ++ []) (all_arrivals insts) /\
+  gout (gd s_out) = [ListTok "0" [ListTok "0.0" [Tok "0.0.0" "a"; Tok "0.0.1" "b"]; ListTok "0.1" []]] /\
+  gfinal s_out = Some Completed.
+Proof. split; [rewrite app_nil_r; apply Permutation_sym, Permutation_rev|]. vm_compute. split; reflexivity. Qed.
+Example C01_status_example :
+  gout (gd (gather_run 1 [OnSize "0" 0; OnTerm SizeP Skipped; OnTerm ElemP Skipped])) =
+  gout (gd (gather_run 1 [OnSize "0" 0; OnTerm SizeP Completed; OnTerm ElemP Recovered])).
+Proof. vm_compute. reflexivity. Qed.
 Example C01_nested_d_hyps : exists outs, chain 2 [([0%N], ex_tree)] outs /\ depth_is 2 ex_tree.
 Proof. exact ex_chain. Qed.
 Example C01_expect_example :
@@ -177,6 +215,8 @@ Qed.
 Print Assumptions C01_scatter.
 Print Assumptions C01_roundtrip.
 Print Assumptions C01_many_keys.
+Print Assumptions C01_many_keys_any_status.
+Print Assumptions C01_status_independent.
 Print Assumptions C01_nested_two_levels.
 Print Assumptions C01_outer_scatter_feeds_inner.
 Print Assumptions C01_numeric_order.
